@@ -19,11 +19,11 @@ def has_spec(shape):
     return any(isinstance(a, str) and a == 'c' and isinstance(b, str) and b == 'm' for a, b in zip(shape, shape[1:]))
 
 
-def shape_sets(tier):
-    """list of (family, shape).  quick: every alternative, optional part and both ends of every bounded repeat with unbounded
-    repeats at their minimum, for all families; one more repetition of every unbounded repeat and digit runs of 3-5 for the
-    shapes without a hurdle specification; a deterministic 1-in-40 sample of the specification shapes with one more repetition.
-    thorough: everything with one more repetition (+ long digit runs)."""
+def shape_sets(tier, spec_every=(1, 100)):
+    """list of (family, shape).  Shapes come in two generations: (0) every alternative, optional part and both ends of every
+    bounded repeat, unbounded repeats at their minimum; (1) one more repetition of every unbounded repeat and digit runs of 3-5.
+    thorough: all of both.  quick: all shapes WITHOUT a hurdle specification, and of those with one (the part of the language
+    whose shapes multiply: 130 000 of them) a deterministic sample, every spec_every[g]-th of generation g."""
     c = codes()
     out, seen = [], set()
 
@@ -34,7 +34,12 @@ def shape_sets(tier):
                 seen.add(k)
                 out.append((fam, s))
     for fam in FAMS:
-        add(fam, SH.shapes(getattr(c, fam), 0))
+        base = SH.shapes(getattr(c, fam), 0)
+        if tier == 'thorough':
+            add(fam, base)
+        else:
+            add(fam, [s for s in base if not has_spec(s)])
+            add(fam, [s for s in base if has_spec(s)][::spec_every[0]])
     for fam in FAMS:
         full = SH.shapes(getattr(c, fam), 1, (3, 4, 5))
         if tier == 'thorough':
@@ -42,7 +47,7 @@ def shape_sets(tier):
         else:
             add(fam, [s for s in full if not has_spec(s)])
             spec = [s for s in full if has_spec(s)]
-            add(fam, spec[::40])
+            add(fam, spec[::spec_every[1]])
     return out
 
 
